@@ -94,6 +94,10 @@ def stepLine (v : Option SemStr) (t : List String) : Option SemStr × String :=
           | .panic => (v, "PANIC")
           | .none => (v, s!"ok v={hex fp} back=none")
           | .name b => (v, s!"ok v={hex fp} back={hex b}")
+  | ["extractp", h, p, s, f] =>
+      match mkCfg h p s with
+      | none => (v, "bad-arg")
+      | some c => if !(Ty.filePath.valid (unhex f)) then (v, "bad-arg") else (v, showExtract (extractFromPath c (unhex f)))
   | ["extract", h, p, s, f] =>
       match mkCfg h p s with
       | none => (v, "bad-arg")
